@@ -295,8 +295,101 @@ func TestC11(t *testing.T) {
 	core.DFS(r, core.Check[docCase]{Name: "small-derivations", Gen: genDoc(true, 1, 2, r.N(1, 2)), Exec: execDoc, NoJournal: true}, 0)
 	core.Rapid(r, core.Check[docCase]{Name: "random-derivations", Gen: genDoc(false, 3, 26), Exec: execDoc}, r.N(3000, 12000))
 	core.DFS(r, core.Check[badCase]{Name: "unrepresentable-literals", Gen: genBad, Exec: execBad}, 0)
+	core.DFS(r, core.Check[assocSeqCase]{Name: "associations-in-sequence-contexts", Gen: func(s core.Source) assocSeqCase {
+		c := assocSeqCase{Context: core.Pick(s, []string{"Array", "List", "Stack", "Queue", "Set"}, "context"), Multi: s.Choose(2, "multi") == 1, Keys: []int{}}
+		n := 1 + s.Choose(4, "n")
+		for i := 0; i < n; i++ {
+			c.Keys = append(c.Keys, s.Choose(len(assocSeqKeys), "key"))
+		}
+		return c
+	}, Exec: execAssocSeq, NoJournal: true}, 0)
 	deepDepths := []int{2, 8, 9, 16, 17, 18, 19, 40, r.N(100, 300)}
 	core.DFS(r, core.Check[deepDocCase]{Name: "deep-sentences", Gen: func(s core.Source) deepDocCase {
 		return deepDocCase{Context: core.Pick(s, []string{"Array", "List", "Set", "Stack", "Queue", "Catalog", "Map"}, "context"), Depth: deepDepths[s.Choose(len(deepDepths), "depth")]}
 	}, Exec: execDeepDoc}, 0)
+}
+
+// ---------------------------------------------------------------- associations in the contexts of the sequence kinds
+
+// The grammar lets associations stand in any context.  In an Array, List, Stack, Queue or Set they denote
+// association objects, in source order; a repeated key keeps its first position and its last value, as in a
+// Catalog (a Set orders its members itself).
+type assocSeqCase struct {
+	Context string `json:"context"`
+	Keys    []int  `json:"keys"` // indices into assocSeqKeys, repeats allowed
+	Multi   bool   `json:"multi"`
+}
+
+var assocSeqKeys = []struct {
+	lit string
+	val any
+}{{"\"a\"", "a"}, {"\"b\"", "b"}, {"1", int64(1)}, {"true", true}}
+
+func execAssocSeq(c assocSeqCase, _ core.Source) (res core.Result) {
+	var items []string
+	type pr struct {
+		k any
+		v int64
+	}
+	var want []pr
+	for i, k := range c.Keys {
+		items = append(items, fmt.Sprintf("%s: %d", assocSeqKeys[k].lit, 10+i))
+		hit := false
+		for j := range want {
+			if want[j].k == assocSeqKeys[k].val {
+				want[j].v, hit = int64(10+i), true
+			}
+		}
+		if !hit {
+			want = append(want, pr{assocSeqKeys[k].val, int64(10 + i)})
+		}
+	}
+	text := "[" + strings.Join(items, ", ") + "](" + c.Context + ")\n"
+	if c.Multi {
+		text = "[\n    " + strings.Join(items, "\n    ") + "\n](" + c.Context + ")\n"
+	}
+	var obj any
+	if p, payload := lib.Call(func() { obj = mod.ParseSource(text) }); p {
+		res.Violation = core.Violate("C11/rejected"+rejectClass(payload), "ParseSource rejected a sentence of the grammar (associations in a %s):\n%s\n%s", c.Context, text, lib.Short(payload))
+		return
+	}
+	seq, ok := obj.(col.Sequential[any])
+	if !ok {
+		res.Violation = core.Violate("C11/assoc-items/wrong-kind", "associations in a %s context parsed to a %T\n%s", c.Context, obj, text)
+		return
+	}
+	var got []pr
+	for _, x := range seq.AsArray() {
+		a, ok := x.(col.AssociationLike[any, any])
+		if !ok {
+			res.Violation = core.Violate("C11/assoc-items/not-associations", "an item of %s is a %T, not an association", text, x)
+			return
+		}
+		v, _ := a.GetValue().(int64)
+		got = append(got, pr{a.GetKey(), v})
+	}
+	match := len(got) == len(want)
+	if match && c.Context != "Set" {
+		for i := range got {
+			match = match && got[i] == want[i]
+		}
+	} else if match {
+		for _, w := range want {
+			found := false
+			for _, g := range got {
+				found = found || g == w
+			}
+			match = match && found
+		}
+	}
+	if !match {
+		res.Violation = core.Violate("C11/assoc-items/wrong-meaning", "the text\n%s\ndenotes the associations %v (a repeated key keeps its first position and its last value), ParseSource returned %v", text, want, got)
+		return
+	}
+	res.NonTrivial = len(c.Keys) >= 2
+	res.Classes = append(res.Classes, "context-"+c.Context)
+	if len(want) < len(c.Keys) {
+		res.Classes = append(res.Classes, "repeated-key")
+	}
+	return
 }
